@@ -16,6 +16,10 @@ TYPES = {'xs:string': 1, 'xs:int': 2}
 
 
 def render_particle_edc(p, named):
+    if p['t'] == 'e' and (p.get('ty') or '').startswith('anon:'):
+        # an anonymous type of its own: two such declarations never have the same type definition
+        return ('<xs:element name="%s"%s><xs:complexType><xs:attribute name="x" type="xs:%s"/></xs:complexType></xs:element>'
+                % (p['n'], cm.occ_attrs(p), p['ty'][5:]))
     if p['t'] == 'e' and p.get('ty'):
         return '<xs:element name="%s" type="%s"%s/>' % (p['n'], p['ty'], cm.occ_attrs(p))
     return _orig_render(p, named)
@@ -110,9 +114,10 @@ def cross_model(ns1, occ1, ns2, occ2):
 
 def edc_pairs(model):
     out = []
-    for lf in cm.leaves(model):
+    for k, lf in enumerate(cm.leaves(model)):
         if lf['t'] == 'e':
-            out.append((cm.CODE[lf['n']], TYPES[lf.get('ty') or 'xs:string']))
+            ty = lf.get('ty') or 'xs:string'
+            out.append((cm.CODE[lf['n']], 100 + k if ty.startswith('anon:') else TYPES[ty]))
     return out
 
 
@@ -245,7 +250,7 @@ def gen_cases(ctx):
         m = cm.random_model(rng, version=v, max_leaves=4, names=('a', 'b'), p_wild=0.0, p_head=0.0, p_ref=0.0, allow_all=False)
         for lf in cm.leaves(m):
             if rng.random() < 0.6:
-                lf['ty'] = rng.choice(['xs:string', 'xs:int'])
+                lf['ty'] = rng.choice(['xs:string', 'xs:int', 'xs:int', 'anon:int', 'anon:int', 'anon:string'])
         cases.append(make_case(m, v))
     return cases
 
